@@ -30,24 +30,34 @@ Qed.
 (* Kill the process between any two modifying effects of any command, issued on
    any reachable repository: what is on disk (the first k effects) is connected
    — objects were written before the ref that names them, the blob before the
-   staging-area entry that names it, the branch before HEAD names it.  The one
-   exception is the HEAD clause during `branch --rename` (K8), refuted below. *)
+   staging-area entry that names it, the branch before HEAD names it.  There is
+   no exception: `branch --rename` (K8) writes the new branch file, points HEAD
+   at it and only then removes the old one. *)
 Theorem C15_crash_safe : forall h e c r w' tr k,
   Forall action_ok h -> run_m (run_cmd e c) (run h w_empty) = (r, w', tr) -> ~ Bad w' ->
-  ConnectedNoHead (apply_effects (firstn k tr) (run h w_empty)) /\
-  (~ is_rename c -> Connected (apply_effects (firstn k tr) (run h w_empty))).
+  Connected (apply_effects (firstn k tr) (run h w_empty)).
 Proof. exact reachable_crash_safe. Qed.
 
-(* K8, the rename window, is real: a connected world, a rename that ends in a
-   connected world, and in between (after the branch file was moved, before
-   HEAD is rewritten) HEAD names a branch that no longer exists *)
-Theorem C15_rename_window_refuted :
+(* K8, the rename window, is closed.  On the witness that refuted the old order
+   (a connected world with one commit on `main`, renamed to `trunk`; the rename
+   ends in a connected world) the command performs eight effects; HEAD and the
+   branch names after 0, 1, 2 and 3 of them are as listed — both branches exist
+   while HEAD moves — and in EVERY prefix state HEAD names an existing branch and
+   the repository is connected *)
+Theorem C15_rename_window_closed :
   exists w e c, is_rename c /\ Connected w /\ ~ Bad (step_w (ACmd e c) w) /\ Connected (step_w (ACmd e c) w) /\
-    ~ HeadOk (apply_effects (firstn 1 (snd (step (ACmd e c) w))) w) /\
-    ~ Connected (apply_effects (firstn 1 (snd (step (ACmd e c) w))) w).
-Proof. exact crash_window_rename_refuted. Qed.
+    length (snd (step (ACmd e c) w)) = 8 /\
+    map (fun k => let w' := apply_effects (firstn k (snd (step (ACmd e c) w))) w in
+                  (w_head w', map fst (w_refs w'))) [0; 1; 2; 3]
+    = [ (str "main"%string, [str "main"%string]);
+        (str "main"%string, [str "main"%string; str "trunk"%string]);
+        (str "trunk"%string, [str "main"%string; str "trunk"%string]);
+        (str "trunk"%string, [str "trunk"%string]) ] /\
+    forall k, HeadOk (apply_effects (firstn k (snd (step (ACmd e c) w))) w) /\
+              Connected (apply_effects (firstn k (snd (step (ACmd e c) w))) w).
+Proof. exact crash_window_rename_closed. Qed.
 
 Print Assumptions C15_world_is_trace_applied.
 Print Assumptions C15_crash_state_is_a_prefix.
 Print Assumptions C15_crash_safe.
-Print Assumptions C15_rename_window_refuted.
+Print Assumptions C15_rename_window_closed.
